@@ -47,6 +47,15 @@ func sameColl(a, b ssa.Value) bool {
 	if a == b {
 		return true
 	}
+	// two calls of one generated getter on one message value (m.GetMrtd() twice)
+	if ca, ok := a.(*ssa.Call); ok {
+		if cb, ok := b.(*ssa.Call); ok {
+			ga, gb := ca.Call.StaticCallee(), cb.Call.StaticCallee()
+			if ga != nil && ga == gb && strings.HasPrefix(ga.Name(), "Get") && ga.Signature.Recv() != nil && len(ca.Call.Args) == 1 && len(cb.Call.Args) == 1 && ca.Call.Args[0] == cb.Call.Args[0] {
+				return true
+			}
+		}
+	}
 	la, ok1 := a.(*ssa.UnOp)
 	lb, ok2 := b.(*ssa.UnOp)
 	if !ok1 || !ok2 || la.Op != token.MUL || lb.Op != token.MUL || la.X != lb.X {
